@@ -2,6 +2,7 @@
  * The functions below REPLACE libc's / libcurl's in the driver executable (symbols defined in
  * the executable take precedence), so every environment answer is decided by the harness. */
 #define _GNU_SOURCE
+#include <sys/time.h>
 #include "simnet.h"
 #include <stdlib.h>
 #include <string.h>
@@ -91,8 +92,14 @@ int ioctl(int fd, unsigned long req, ...) {
 }
 
 int setsockopt(int fd, int level, int optname, const void *optval, socklen_t optlen) {
-	if (!sn_by_fd(fd)) return (int)syscall(SYS_setsockopt, fd, level, optname, optval, optlen);
+	sn_conn *c = sn_by_fd(fd);
+	if (!c) return (int)syscall(SYS_setsockopt, fd, level, optname, optval, optlen);
 	sn_calls++;
+	if (level == SOL_SOCKET && (optname == SO_RCVTIMEO || optname == SO_SNDTIMEO) && optval != NULL && optlen >= sizeof(struct timeval)) {
+		const struct timeval *tv = (const struct timeval *)optval;
+		if (optname == SO_RCVTIMEO) { c->rcv_timeo_s = (long)tv->tv_sec; c->rcv_timeo_set = 1; }
+		else { c->snd_timeo_s = (long)tv->tv_sec; c->snd_timeo_set = 1; }
+	}
 	return 0;
 }
 
